@@ -22,7 +22,8 @@ RULE = ("poll histories on one region's event queue through the real request/res
         "events, templated events, region-announcing EstablishAgentCommunication / EnableSimulator / TeleportFinish / CrossedRegion "
         "with fresh and repeated addresses), per-event addon decisions {ignore, return True, return 1/'yes'/object, raise, swallow-and-inject-a-rewritten-copy-from-inside-the-hook}, "
         "inject_event / inject_message before polls, response lost followed by a re-poll with the stale ack, 499/502/404 "
-        "responses, 200 with undef body, region teardown.  Every response the viewer receives is compared with the model.  "
+        "responses, 200 with undef body, region teardown, injections queued for another region, announced neighbours connecting and going away, "
+        "events without a map body or without all their blocks, a response lost twice.  Every response the viewer receives is compared with the model.  "
         "Exhaustive to depth 4 (quick) / 6 (thorough) over 11 abstract events, Hypothesis histories beyond.  Non-trivial = history with an injection or "
         "a swallowed event or a lost response; distinct by content.")
 ASSUMPTIONS = [
